@@ -1,4 +1,5 @@
 import Unimock.Lemmas.State
+import Unimock.Generated.Counter
 import Unimock.Lemmas.Scan
 import Unimock.Model.Assemble
 import Unimock.Lemmas.Ordered
@@ -300,5 +301,12 @@ theorem C04_unordered_keeps_invariant (s : Shared Œ± œÅ) (m : MethodInfo) (a : Œ
     rw [hother id i hne] at hp
     rw [hnext]
     exact hinv id i p hp hmo
+
+/-- the slot-ownership test as written in `FnMocker::find_call_pattern_for_call_order` (regenerated from the
+    source on every run by `tools/translate_counter.py`) is the model's `Pattern.owns` -/
+theorem C04_source_slot_test (p : Pattern Œ± œÅ) (idx : Nat) :
+    Generated.ownsSrc p.lo p.hi idx = decide (p.owns idx) := by
+  simp only [Generated.ownsSrc, Pattern.owns, gt_iff_lt]
+  by_cases h1 : p.lo ‚â§ idx <;> by_cases h2 : idx < p.hi <;> simp [h1, h2]
 
 end Unimock
